@@ -50,3 +50,17 @@ package dkv
 //@   property C09
 //@   nosafety
 //@   order Save after RetainOnly
+
+// ---- change sets compose with concurrent flushes (C18): the flush task and the compaction
+// task both replace db.sstables, under db.mu, by applying their change set to the layout that
+// is current AT THAT MOMENT - never to the snapshot the compaction step was computed from, which
+// would drop level-0 tables flushed in the meantime.
+//@ func DB.rotateMemtable$0
+//@   property C18
+//@   nosafety
+//@   atcall NewWithChangeSet: recv_ == db.sstables
+
+//@ func DB.rotateMemtable$1
+//@   property C18
+//@   nosafety
+//@   atcall NewWithChangeSet: recv_ == db.sstables
